@@ -57,6 +57,16 @@ var impList = []string{
 	"Decimal_setBig", "Decimal_Reduce", "Context_Reduce",
 }
 
+// impTransList: the composite functions (second output file, Gen/ImpTrans.lean)
+var impTransList = []string{
+	"Context_rootSpecials", "Context_logSpecials",
+	"sqrtSettle",
+	"Condition_SystemOverflow", "Condition_negateOverflowFlags",
+	"MakeErrDecimal", "ErrDecimal_Err", "ErrDecimal_update", "ErrDecimal_Mul", "ErrDecimal_Quo", "ErrDecimal_Abs",
+	"Context_integerPower",
+	"Context_Sqrt",
+}
+
 type cat int
 
 const (
@@ -76,6 +86,8 @@ const (
 	cIntPtr
 	cIntList
 	cUnit
+	cED    // ErrDecimal held by value (a local struct)
+	cEDPtr // *ErrDecimal (receiver)
 )
 
 func classify(t types.Type) cat {
@@ -89,6 +101,8 @@ func classify(t types.Type) cat {
 				return cBigPtr
 			case "Context":
 				return cCtx
+			case "ErrDecimal":
+				return cEDPtr
 			}
 		}
 		if b, ok := u.Elem().Underlying().(*types.Basic); ok && b.Kind() == types.Int64 {
@@ -98,6 +112,10 @@ func classify(t types.Type) cat {
 		switch u.Obj().Name() {
 		case "Decimal":
 			return cDec
+		case "Context":
+			return cCtx // a Context held by value (`down := *nc`)
+		case "ErrDecimal":
+			return cED
 		case "BigInt":
 			return cBig
 		case "Condition":
@@ -159,6 +177,8 @@ func leanOf(c cat) string {
 		return "List Int"
 	case cUnit:
 		return "Unit"
+	case cED, cEDPtr:
+		return "ED"
 	}
 	return "sorryUnsupported"
 }
@@ -172,6 +192,9 @@ const (
 	pOptSrc        // *Decimal that may be nil
 	pOptCell       // *Decimal that may be nil and is written through
 	pDecIO         // *Decimal that is the address of a caller's local Decimal: in/out value (variants)
+	pDecIn         // *Decimal that is at every call site the address of a local Decimal and is only read: a value
+	pEDIO          // *ErrDecimal receiver: the struct passed in and returned by value
+	pBigIn         // *BigInt that is only read: a signed integer
 	pBigIO         // *BigInt in/out value (pure functions)
 	pIntIO         // *int64 in/out value
 	pBPtr          // *BigInt pointer value (functions returning *BigInt)
@@ -193,10 +216,14 @@ func (p iparam) lean() string {
 		return "Option Src"
 	case pOptCell:
 		return "Option Cell"
-	case pDecIO:
+	case pDecIO, pDecIn:
 		return "Dec"
+	case pEDIO:
+		return "ED"
 	case pBigIO:
 		return "Nat"
+	case pBigIn:
+		return "Int"
 	case pIntIO:
 		return "Int"
 	case pBPtr:
@@ -238,7 +265,7 @@ func (s *isig) nres() int { return len(s.results) + len(s.outs) }
 
 var impSigs = map[string]*isig{}
 
-var bigMutators = map[string]bool{"Set": true, "SetInt64": true, "Abs": true, "Neg": true, "Add": true, "Sub": true,
+var bigMutators = map[string]bool{"Rsh": true, "SetUint64": true, "Set": true, "SetInt64": true, "Abs": true, "Neg": true, "Add": true, "Sub": true,
 	"Mul": true, "Quo": true, "Rem": true, "QuoRem": true}
 
 // callee key of a call expression, "" if it is not a call of a package function or method
@@ -331,9 +358,63 @@ var impDefs []string
 
 func buildSig(key string, fd *ast.FuncDecl) *isig { return buildSigLoc(key, fd, nil) }
 
+// alwaysLocal: the positions (receiver first) of the *Decimal parameters of a function that are, at every call
+// site of the package, the address of a local Decimal variable
+func alwaysLocal(key string) map[int]bool {
+	counts := map[int]int{}
+	calls := 0
+	for _, f := range parsedFiles {
+		ast.Inspect(f, func(n ast.Node) bool {
+			call, ok := n.(*ast.CallExpr)
+			if !ok || calleeKey(call) != key {
+				return true
+			}
+			calls++
+			var actuals []ast.Expr
+			if se, ok := call.Fun.(*ast.SelectorExpr); ok && funcs[key].Recv != nil {
+				actuals = append(actuals, se.X)
+			}
+			actuals = append(actuals, call.Args...)
+			for i, a := range actuals {
+				if isLocalDecimalAddr(a) {
+					counts[i]++
+				}
+			}
+			return true
+		})
+	}
+	r := map[int]bool{}
+	for i, c := range counts {
+		if calls > 0 && c == calls {
+			r[i] = true
+		}
+	}
+	return r
+}
+
+// isLocalDecimalAddr: `&v` or `v` for a local variable v of type Decimal
+func isLocalDecimalAddr(a ast.Expr) bool {
+	if u, ok := a.(*ast.UnaryExpr); ok && u.Op == token.AND {
+		a = u.X
+	}
+	id, ok := a.(*ast.Ident)
+	if !ok {
+		return false
+	}
+	o := info.Uses[id]
+	v, ok := o.(*types.Var)
+	if !ok || v.Parent() == pkg.Scope() || v.IsField() {
+		return false
+	}
+	return classify(v.Type()) == cDec
+}
+
 func buildSigLoc(key string, fd *ast.FuncDecl, loc map[int]bool) *isig {
 	s := &isig{key: key, fd: fd}
+	always := alwaysLocal(key)
 	written := map[string]bool{}
+	alias := map[string][]string{} // z := d : writes through z are writes through d
+	bigWritten := map[string]bool{}
 	nilable := map[string]bool{}
 	reassigned := map[string]bool{}
 	ast.Inspect(fd.Body, func(n ast.Node) bool {
@@ -345,6 +426,15 @@ func buildSigLoc(key string, fd *ast.FuncDecl, loc map[int]bool) *isig {
 				}
 			}
 		case *ast.AssignStmt:
+			if len(n.Lhs) == len(n.Rhs) {
+				for i, l := range n.Lhs {
+					if a, b := identName(l), identName(n.Rhs[i]); a != "" && b != "" && a != "_" {
+						if ty := goType(n.Rhs[i]); ty != nil && classify(ty) == cDecPtr {
+							alias[a] = append(alias[a], b)
+						}
+					}
+				}
+			}
 			for _, l := range n.Lhs {
 				if se, ok := l.(*ast.SelectorExpr); ok {
 					if id := identName(se.X); id != "" {
@@ -357,6 +447,14 @@ func buildSigLoc(key string, fd *ast.FuncDecl, loc map[int]bool) *isig {
 			}
 		case *ast.CallExpr:
 			if se, ok := n.Fun.(*ast.SelectorExpr); ok && isBigIntRecv(se) && bigMutators[se.Sel.Name] {
+				if id := identName(se.X); id != "" {
+					bigWritten[id] = true
+				}
+				if se.Sel.Name == "QuoRem" && len(n.Args) == 3 {
+					if id := identName(n.Args[2]); id != "" {
+						bigWritten[id] = true
+					}
+				}
 				if o := coeffOwner(se.X); o != "" {
 					written[o] = true
 				}
@@ -386,6 +484,9 @@ func buildSigLoc(key string, fd *ast.FuncDecl, loc map[int]bool) *isig {
 							if o := coeffOwner(a); o != "" {
 								written[o] = true
 							}
+							if id := identName(a); id != "" {
+								bigWritten[id] = true
+							}
 						}
 					}
 				}
@@ -393,6 +494,19 @@ func buildSigLoc(key string, fd *ast.FuncDecl, loc map[int]bool) *isig {
 		}
 		return true
 	})
+	for changed := true; changed; {
+		changed = false
+		for a, bs := range alias {
+			if written[a] {
+				for _, b := range bs {
+					if !written[b] {
+						written[b] = true
+						changed = true
+					}
+				}
+			}
+		}
+	}
 	hasBigPtrResult := false
 	if fd.Type.Results != nil {
 		for _, r := range fd.Type.Results.List {
@@ -468,6 +582,8 @@ func buildSigLoc(key string, fd *ast.FuncDecl, loc map[int]bool) *isig {
 		case cDecPtr:
 			s.monadic = true
 			switch {
+			case always[len(s.params)] && !written[name] && !nilable[name]:
+				p.kind = pDecIn
 			case loc[len(s.params)]:
 				p.kind = pDecIO
 				if reassigned[name] {
@@ -490,13 +606,18 @@ func buildSigLoc(key string, fd *ast.FuncDecl, loc map[int]bool) *isig {
 				p.kind = pSrc
 			}
 		case cBigPtr:
-			if hasBigPtrResult && !retBig[name] {
+			switch {
+			case hasBigPtrResult && !retBig[name]:
 				p.kind = pBPtr
-			} else {
+			case !bigWritten[name] && !retBig[name] && !reassigned[name]:
+				p.kind = pBigIn
+			default:
 				p.kind = pBigIO
 			}
 		case cIntPtr:
 			p.kind = pIntIO
+		case cEDPtr:
+			p.kind = pEDIO
 		case cDec, cBig, cUnknown, cUnit:
 			fail("%s: parameter %s of type %s", key, name, ty)
 		}
@@ -521,23 +642,52 @@ func buildSigLoc(key string, fd *ast.FuncDecl, loc map[int]bool) *isig {
 		}
 	}
 	for i, p := range s.params {
-		if p.kind == pBigIO || p.kind == pIntIO || p.kind == pDecIO {
+		if p.kind == pBigIO || p.kind == pIntIO || p.kind == pDecIO || p.kind == pEDIO {
 			s.outs = append(s.outs, i)
 		}
 	}
 	for i, c := range s.goResults {
 		if c == cDecPtr {
-			if !s.hasRecv || s.params[0].cat != cDecPtr {
-				fail("%s: returns a *Decimal that is not its receiver", key)
+			// the result must be one of the function's own *Decimal pointers: its receiver, or always the same parameter
+			name := ""
+			okp := true
+			ast.Inspect(fd.Body, func(n ast.Node) bool {
+				switch n := n.(type) {
+				case *ast.FuncLit:
+					return false
+				case *ast.ReturnStmt:
+					if len(n.Results) != len(s.goResults) {
+						okp = false
+						return true
+					}
+					id := identName(n.Results[i])
+					if id == "" || (name != "" && name != id) {
+						okp = false
+					}
+					name = id
+				}
+				return true
+			})
+			isParam := false
+			for _, p := range s.params {
+				if p.name == name && p.cat == cDecPtr {
+					isParam = true
+				}
+			}
+			if okp && isParam && !reassigned[name] {
+				s.drop[i] = name
+			} else if s.hasRecv && s.params[0].cat == cDecPtr {
+				s.drop[i] = s.params[0].name
+			} else {
+				fail("%s: returns a *Decimal that is not one of its own pointers", key)
 				continue
 			}
-			s.drop[i] = s.params[0].name
 		}
 		if _, dropped := s.drop[i]; !dropped {
 			s.results = append(s.results, c)
 		}
 	}
-	if len(s.goResults) == 1 && s.goResults[0] == cDecPtr {
+	if len(s.goResults) == 1 && s.goResults[0] == cDecPtr && s.hasRecv && s.drop[0] == s.params[0].name && s.params[0].cat == cDecPtr {
 		s.retRecv = true
 	}
 	return s
